@@ -20,7 +20,8 @@ for p in props:
              "C01": [("ConcreteG2", "ConcreteG2"), ("ConcreteBridge", "Bridge")],
              "C03": [("ConcreteBridge3", "Bridge3")],
              "C04": [("ConcreteBridge2", "Bridge2")],
-             "C10": [("Transfer", "Transfer")]}
+             "C10": [("Transfer", "Transfer")],
+             "C11": [("ConcreteH2C", "ConcreteH2C")]}
     EXTRA = {k: [(m, ns) for m, ns in v if os.path.exists(LEAN + "/ZkProofs/Props/%s.lean" % m)] for k, v in EXTRA.items()}
     thms = []
     nsmap = {m: m for m in mods}
